@@ -31,7 +31,7 @@ func genC17(t *rapid.T) C17Case {
 		lens = append(lens, 262144, 1048576, 1048577, 2097152)
 	}
 	c := C17Case{
-		Cmd:     rapid.SampledFrom([]string{"generate", "generate", "generate-include", "generate-include-pairs", "generate-include-except", "format", "renumber", "copyright"}).Draw(t, "cmd"),
+		Cmd:     rapid.SampledFrom([]string{"generate", "generate", "generate-include", "generate-include-pairs", "generate-include-except", "generate-definition", "format", "renumber", "copyright", "update-compare"}).Draw(t, "cmd"),
 		Long:    rapid.SampledFrom([]string{"entry", "entry", "comment"}).Draw(t, "long"),
 		Len:     rapid.SampledFrom(lens).Draw(t, "len"),
 		FinalNL: rapid.IntRange(0, 3).Draw(t, "finalnl") != 0,
@@ -99,6 +99,74 @@ func checkC17(c C17Case) Outcome {
 		return true, ""
 	}
 	switch c.Cmd {
+	case "update-compare":
+		// a rules file whose first rule has a very long operand; the addressed rule comes after it
+		long := "SecRule ARGS \"@rx " + tok + "\" \\\n    \"id:932050,\\\n    phase:2\"\n"
+		rules := "# header\n" + long + "SecRule ARGS \"@rx old\" \\\n    \"id:932100,\\\n    phase:2\"\n"
+		tree := cli.Tree{"regex-assembly/932100.ra": strings.Join(append([]string{"first"}, c.Words...), "\n") + "\n", "regex-assembly/932050.ra": tok + "\n", "rules/REQUEST-932-X.conf": rules}
+		if err := tree.Write(root); err != nil {
+			panic(err)
+		}
+		g := run("", "regex", "generate", "932100")
+		u := run("", "regex", "update", "932100")
+		if u.Exit != 0 {
+			out.Labels = append(out.Labels, "loud-failure")
+			if sb.Read("crs/rules/REQUEST-932-X.conf") != rules {
+				out.Violation = "update failed but modified the rules file"
+				return out
+			}
+			break
+		}
+		want := strings.Replace(rules, "\"@rx old\"", "\"@rx "+g.Stdout+"\"", 1)
+		if got := sb.Read("crs/rules/REQUEST-932-X.conf"); got != want {
+			out.Detail["got_len"], out.Detail["want_len"] = len(got), len(want)
+			out.Violation = "exit 0 but the rules file after update is not the original with the operand replaced (content lost)"
+			return out
+		}
+		for _, arg := range []string{"932100", "932050"} {
+			cmp := run("", "regex", "compare", arg)
+			if arg == "932100" && (cmp.Exit != 0 || !strings.Contains(cmp.Stdout, "has not changed")) {
+				out.Detail["compare_exit"], out.Detail["compare_stderr"] = cmp.Exit, tailLines(cmp.Stderr, 3)
+				out.Violation = "compare after update does not find / confirm the rule that follows a very long line"
+				return out
+			}
+			if arg == "932050" && (cmp.Exit != 0 || !strings.Contains(cmp.Stdout, "has not changed")) {
+				out.Detail["compare_exit"], out.Detail["compare_stderr"] = cmp.Exit, tailLines(cmp.Stderr, 3)
+				out.Violation = "compare does not read back a very long operand completely"
+				return out
+			}
+		}
+	case "generate-definition":
+		// no input line is long by itself: the expansion of a definition makes it long
+		half := strings.Repeat("q", c.Len/2)
+		lines := []string{"##!> define big " + half}
+		lines = append(lines, insert(c.Words, "z{{big}}{{big}}z")...)
+		tree := cli.Tree{"regex-assembly/": ""}
+		if err := tree.Write(root); err != nil {
+			panic(err)
+		}
+		r := run(join(lines), "regex", "generate", "-")
+		out.Detail["exit"], out.Detail["stdout_len"] = r.Exit, len(r.Stdout)
+		if r.Exit != 0 {
+			if r.Stdout != "" {
+				out.Violation = fmt.Sprintf("generate fails (exit %d) but still prints a regex", r.Exit)
+				return out
+			}
+			out.Labels = append(out.Labels, "loud-failure")
+			break
+		}
+		matcher, err := reqv.Matcher(r.Stdout)
+		if err != nil {
+			out.Violation = "output is not an RE2 expression: " + err.Error()
+			return out
+		}
+		for _, w := range append(append([]string{}, c.Words...), "z"+half+half+"z") {
+			if !matcher(w) {
+				out.Detail["missing"] = clip(w, 40)
+				out.Violation = fmt.Sprintf("exit 0 but entry %q is not accepted by the generated regex: input was silently truncated", clip(w, 40))
+				return out
+			}
+		}
 	case "generate", "generate-include", "generate-include-pairs", "generate-include-except":
 		long := tok
 		if c.Long == "comment" {
